@@ -519,7 +519,7 @@ class ArrayCollection:
     def update(self, name, array, *, resize=False):
         """update array inplace"""
         try:
-            self._arrays[name][:] = array
+            self._arrays[name][...] = array
         except ValueError:
             self.set(name, array, check=False, resize=resize)
 
